@@ -192,7 +192,8 @@ pub fn crypto_pwhash_str(password: &[u8], opslimit: u64, memlimit: usize) -> Res
         "memlimit"
     );
 
-    let salt = [0u8; CRYPTO_PWHASH_SALTBYTES];
+    let mut salt = [0u8; CRYPTO_PWHASH_SALTBYTES];
+    crate::rng::copy_randombytes(&mut salt);
     let mut hash = [0u8; STR_HASHBYTES];
 
     let (t_cost, m_cost) = convert_costs(opslimit, memlimit);
